@@ -246,6 +246,20 @@ def step (sk : Skeleton) (s : State) : Act → Option State
       | none => none
     else none
 
+/-- The source facts that justify treating `Receive`, `Free`, `Close` and `Publish`'s lookup as ONE
+    atomic step each: a single lock…unlock region that contains the closed check, the map access
+    and every effect on the entry.  (If an operation were split into two regions, another thread's
+    step could fall between them and this model would not describe the code.) -/
+structure Atomic (sk : Skeleton) : Prop where
+  receive  : sk.bcReceiveOneSection = true
+  free     : sk.bcFreeOneSection = true
+  close    : sk.bcCloseOneSection = true
+  publish  : sk.bcPublishOneLookupSection = true
+  lookup   : sk.bcPublishLooksUpUnderLock = true
+  freeL    : sk.bcFreeUnderLock = true
+  closeL   : sk.bcCloseUnderLock = true
+  reuse    : sk.bcReceiveReusesEntry = true
+
 inductive Reach (sk : Skeleton) : State → Prop where
   | init : Reach sk init
   | step {s s' : State} (a : Act) : Reach sk s → step sk s a = some s' → Reach sk s'
